@@ -21,7 +21,7 @@ import traceback
 import warnings
 
 ROOT = os.path.dirname(os.path.dirname(os.path.abspath(__file__)))
-LEAN = os.path.join(ROOT, "lean")
+LEAN = os.environ.get("VERIF_LEAN") or os.path.join(ROOT, "lean")
 REPO = os.environ.get("VERIF_REPO", "/repo")
 ALLOWED_AXIOMS = {"propext", "Classical.choice", "Quot.sound"}
 FORBIDDEN = re.compile(r"\b(sorry|admit|native_decide|bv_decide|implemented_by|unsafe|maxHeartbeats 0)\b|^axiom ", re.M)
@@ -94,7 +94,7 @@ class Ctx:
         self.checker_cmd = ""
         self._drivers = []
         self.max_reports = 5
-        kf = os.path.join(ROOT, "known_findings.json")
+        kf = os.environ.get("VERIF_KNOWN") or os.path.join(ROOT, "known_findings.json")
         self.known = json.load(open(kf)).get("findings", []) if os.path.exists(kf) else []
 
     # ---------------------------------------------------------------- Lean side
